@@ -159,6 +159,18 @@ CHECKS = [
              "are decided by the bounded part only; known finding C10-offcycle-disqualifies",
      "not_covered": ["hourly monthly-coverage verdicts are decided by the bounded part only", "billing period day counting"],
      },
+    {"id": "C08", "level": "proof", "modules": ["contracts.C08_conserve"], "bounded": ["bounded.C08_conserve"],
+     "technique": "deductive verification of the cleaning steps on a row-wise model (pyvc, z3) + bounded exact-arithmetic conservation through the real data classes",
+     "text": "Proof: for one arbitrary row of an arbitrary frame, downsample_and_clean_daily_data keeps every day, blanks a day covered for half or "
+             "less and divides a day covered for more than half by its coverage (a fully covered day is the plain sum); clean_billing_data keeps "
+             "the billed amount of a period of 25..35 (bi-monthly 25..70) calendar days, blanks every other period and KEEPS its row, and does not "
+             "touch its input. Period lengths are calendar days on the index's own clock (the elapsed-time day count, one less across the spring "
+             "daylight-saving change, is modelled and refuted). Bounded (labelled so): real billing / daily data classes and the helpers against "
+             "exact interval arithmetic in absolute time: per-period sums, per-day constant-rate shares, off-cycle thresholds, 15/30/60-minute "
+             "feeds with gaps on DST days.",
+     "note": "as_freq's pandas pipeline (asfreq / resample) is outside the symbolic part: conservation through it is decided by the bounded part only; "
+             "known finding C08-subdaily-gap-not-scaled; fix 8ca01c07 (calendar-day period lengths)",
+     "not_covered": ["as_freq itself is exercised by the bounded part only", "readings not aligned to the reading interval / local midnight (outside the property's quantifier)"]},
     {"id": "C17", "level": "proof", "modules": ["contracts.C17_prepare"], "bounded": ["flow.C17_frame", "bounded.C17_keep"],
      "technique": "deductive verification of interpolate() on a row-wise model (pyvc, one arbitrary row of an arbitrary frame, z3) + AST frame obligation on _interpolate_col + bounded cell-by-cell comparison through the real hourly data classes",
      "text": "Proof: for one arbitrary row of an arbitrary frame and every branch of the lag selection, interpolate() keeps every cell that was "
